@@ -130,7 +130,7 @@ def gen_multi_timer_spec(rng: random.Random) -> dict:
     between).  Optionally the workflow timeout is a further entry (pushed first, usually the latest)."""
     n = rng.choice([3, 3, 3, 4, 4, 5])
     ds = rng.sample([2, 3, 4, 5, 6, 7, 8, 9, 11, 13, 15, 18, 22, 27], n)
-    if rng.random() < 0.15:
+    if rng.random() < 0.25:
         ds[1] = ds[0]  # two timers due together
     gated = rng.random() < 0.4
     names = [f"s{i:02d}" for i in rng.sample(range(1, 12), n)]
@@ -178,7 +178,7 @@ def gen_multi_conf(rng: random.Random, spec: dict) -> dict:
     gaps = [b - a for a, b in zip([0] + ds, ds)] or [3]
     g = max(gaps)
     d = rng.choice(ds or [3])
-    idle = rng.choice([g + 1, g + 1, g + 1, g + 2, g, 10 ** 6, 10 ** 6, max(1, d - 1), d + 1, 1])
+    idle = rng.choice([g + 1, g + 1, g + 1, g + 2, g, 10 ** 6, 10 ** 6, 10 ** 6, max(1, d - 1), d + 1, 1])
     return {"idle_timeout": int(idle), "crashes": rng.choice([0, 0, 0, 0, 1]), "crash_pct": 10, "horizon": 300}
 
 
@@ -328,7 +328,7 @@ def run(env: Env) -> Outcome:
     out.rule = ("witnesses (F13 numbers and integral variants) + generated retry / wait_for_event / fan-out workflows on the real server stack; "
                 "stream 'norelease': idle_timeout 1e6, no process stop (monitors must be silent); stream 'cut': idle_timeout = a pending delay -1/0/+1, 1, 2x or 1000, "
                 "0-2 process stops at random quiescent points, service sends; stream 'multi': 3-5 timers (wait_for_event timeouts / retry delays from 2..27 s, "
-                "15% with a tie, 35% with a workflow timeout) pending at once, armed in random order, idle_timeout = largest gap between consecutive due times +1/+2/+0, "
+                "25% with a tie, 35% with a workflow timeout) pending at once, armed in random order, idle_timeout = largest gap between consecutive due times +1/+2/+0, "
                 "1e6, a delay -1/+1 or 1, one process stop in 20% of the runs; non-trivial = a run with at least one expected timer or one cut; "
                 "distinct by (spec, conf, schedule)")
     rng = random.Random(env.rng.randrange(1 << 30))
@@ -352,7 +352,7 @@ def run(env: Env) -> Outcome:
         if len(batch.ops) > 60000:
             _flush(out, batch)
             batch = _Batch()
-    for _ in range(env.budget(70, 2500)):
+    for _ in range(env.budget(100, 2500)):
         spec = gen_multi_timer_spec(rng)
         _one(out, batch, "multi", "multi", spec, gen_multi_conf(rng, spec), rng.randrange(1 << 30), None)
         if len(batch.ops) > 60000:
